@@ -36,6 +36,7 @@ const (
 	FStrEscapes
 	FEq
 	FMul
+	FDiv
 	FAll uint64 = 1<<iota - 1
 )
 
@@ -65,10 +66,11 @@ type GenStatsT struct {
 }
 
 type gvar struct {
-	name string
-	t    *Type
-	uses int
-	lit  bool // bound to a known small literal (safe index / recursion argument)
+	name    string
+	t       *Type
+	uses    int
+	lit     bool // bound to a known small literal (safe index / recursion argument)
+	zeroish bool // an int bound to 0 / a small literal / v - v: the preferred divisor of a guarded division
 }
 
 type gfun struct {
@@ -460,6 +462,18 @@ func (g *gen) expr(t *Type, d int) *Expr {
 			return eBin(op, a, b, tInt)
 		}})
 		alts = append(alts, alt{2, func() *Expr { return g.noisy(g.expr(tInt, d-1)) }})
+		if g.has(FDiv) && !g.prof.Tiny {
+			alts = append(alts, alt{1, func() *Expr { // division by a non-zero literal
+				var dv *Expr = eInt(int64(1 + g.r.Intn(9)))
+				if g.r.Chance(1, 4) {
+					dv = eBin("-", eInt(0), dv, tInt) // there are no negative literals in Folang
+				}
+				return eBin("/", g.expr(tInt, d-1), dv, tInt)
+			}})
+			if g.has(FIfValue) && top {
+				alts = append(alts, alt{2, func() *Expr { return g.guardedDiv() }})
+			}
+		}
 	case TString:
 		alts = append(alts, alt{3, func() *Expr { return eBin("sadd", g.expr(tString, d-1), g.expr(tString, d-1), tString) }})
 		if g.has(FInterp) {
@@ -664,6 +678,48 @@ func (g *gen) ifExpr(t *Type, d int) *Expr {
 		b := e.Blocks[0]
 		b.Stmts = append(b.Stmts, &Stmt{K: SDo, E: b.E})
 		b.E = eUnit()
+	}
+	return e
+}
+
+// plainInt: an int expression made of variables, field accesses, literals and + - only, not a bare literal
+// (what a compiler may be tempted to evaluate early: "nothing is called").
+func (g *gen) plainInt() *Expr {
+	v := g.varOfType(tInt)
+	if v == nil {
+		return nil
+	}
+	e := g.use(v)
+	if g.r.Chance(1, 3) {
+		e = eBin(Choose(g.r, []string{"+", "-"}), e, eInt(int64(g.r.Intn(4))), tInt)
+	}
+	return e
+}
+
+// guardedDiv: `if d = 0 then dflt else n / d` (or with <> and the branches exchanged): the division is in the
+// branch the guard excludes when d is 0, and both branches are plain expressions. d is a variable, so that
+// Go does not fold the division.
+func (g *gen) guardedDiv() *Expr {
+	dv := g.varOfType(tInt)
+	if dv == nil {
+		return nil
+	}
+	return g.guardedDivOn(dv)
+}
+
+func (g *gen) guardedDivOn(dv *gvar) *Expr {
+	dflt, num := g.plainInt(), g.plainInt()
+	if dflt == nil || num == nil {
+		return nil
+	}
+	div := eBin("/", num, g.use(dv), tInt)
+	e := &Expr{K: EIf, T: tInt}
+	if g.r.Bool() {
+		e.Args = []*Expr{{K: EEq, Args: []*Expr{g.use(dv), eInt(0)}, T: tBool}}
+		e.Blocks = []*Block{blockOf(dflt), blockOf(div)}
+	} else {
+		e.Args = []*Expr{{K: ENeq, Args: []*Expr{g.use(dv), eInt(0)}, T: tBool}}
+		e.Blocks = []*Block{blockOf(div), blockOf(dflt)}
 	}
 	return e
 }
@@ -1835,6 +1891,45 @@ func (g *gen) stmt(d int) []*Stmt {
 			n := g.fresh("fn")
 			g.push(n, t)
 			return []*Stmt{{K: SLet, Name: n, E: e}}
+		}})
+	}
+	if g.has(FDiv) && g.has(FIfValue) && !g.prof.Tiny {
+		alts = append(alts, sa{1, func() []*Stmt { // an int variable that is (often) zero at run time
+			dn := g.freshVar()
+			var de *Expr
+			switch g.r.Intn(4) {
+			case 0:
+				de = eInt(int64(g.r.Intn(3)))
+			case 1:
+				if v := g.varOfType(tInt); v != nil {
+					de = eBin("-", g.use(v), g.use(v), tInt) // zero, but not a constant for Go
+					break
+				}
+				fallthrough
+			default:
+				de = eInt(0)
+			}
+			g.push(dn, tInt).zeroish = true
+			return []*Stmt{{K: SLet, Name: dn, E: de}}
+		}})
+		alts = append(alts, sa{2, func() []*Stmt { // a division guarded against a zero divisor, preferably such a variable
+			var dv *gvar
+			if g.r.Chance(3, 4) {
+				dv = g.pickVar(func(v *gvar) bool { return v.zeroish })
+			}
+			if dv == nil {
+				dv = g.varOfType(tInt)
+			}
+			if dv == nil {
+				return nil
+			}
+			gd := g.guardedDivOn(dv)
+			if gd == nil {
+				return nil
+			}
+			rn := g.freshVar()
+			g.push(rn, tInt)
+			return []*Stmt{{K: SLet, Name: rn, E: gd}}
 		}})
 	}
 	if g.has(FLambda) && !g.prof.Tiny && d > 1 {
